@@ -399,9 +399,17 @@ type c07WParams struct {
 	// three-party history is registered under C01 (B's messages arrive intact),
 	// C02 (B's stream is well-formed) and C16 (nothing follows B's Close frame).
 	Prop string
+	// Sep: B is opened by its own task (it may be created while A's close is
+	// still in progress) instead of by the task that has just closed A.
+	Sep bool
 }
 
-func (p c07WParams) name() string { return "wconc/" + p.K.String() }
+func (p c07WParams) name() string {
+	if p.Sep {
+		return "wconc-sep/" + p.K.String()
+	}
+	return "wconc/" + p.K.String()
+}
 
 func (p c07WParams) prop() string {
 	if p.Prop == "" {
@@ -417,26 +425,61 @@ func c07WSetup(prm c07WParams) func(c *fw.Ctx, name string) explore.Setup {
 			vsync.PoolLogging = true
 			pa, pb := vpipe.New(), vpipe.New()
 			pa.Window = 1000
+			if prm.Sep {
+				// A's transport never blocks, but a write that succeeded returns in a
+				// second step: the close can land between the two
+				pa.Window = 0
+				pa.SplitWrite = true
+				// B's peer reads in small steps: B's writer parks inside a frame, so that
+				// other tasks run while B's buffered bytes wait
+				pb.Window = 160
+			}
 			var bErrs []error
 			w.GoHarness("main", true, func() {
 				a := mkConn(pa, k)
 				bg := vctx.Background()
-				w.GoHarness("writerA", true, func() { a.Write(bg, websocket.MessageBinary, bytes.Repeat([]byte{'A'}, 2200)) })
+				sizeA := 2200
+				if prm.Sep {
+					sizeA = 4300 // more than one write buffer: there is more to copy after a flush
+				}
+				w.GoHarness("writerA", true, func() { a.Write(bg, websocket.MessageBinary, bytes.Repeat([]byte{'A'}, sizeA)) })
 				ctx, cancel := vctx.WithCancel(bg)
 				cancel() // a context that is already over: the call gives up as soon as it has to wait for a lock
-				w.GoHarness("failerA", true, func() { a.Ping(ctx) })
-				w.GoHarness("closerA-then-B", true, func() {
-					a.CloseNow()
+				if !prm.Sep {
+					w.GoHarness("failerA", true, func() { a.Ping(ctx) })
+				}
+				useB := func() {
 					// a new client picks up what A returned to the pools
 					b := mkConn(pb, k)
-					for i := 0; i < 2; i++ {
+					nB := 2
+					if prm.Sep {
+						nB = 1
+					}
+					for i := 0; i < nB; i++ {
 						bErrs = append(bErrs, b.Write(bg, websocket.MessageBinary, bytes.Repeat([]byte{'B'}, 300)))
 					}
 					if prm.Prop == "C16" {
 						b.Close(websocket.StatusNormalClosure, "") // the peer never answers: 5 s virtual
 					}
 					b.CloseNow()
-				})
+				}
+				if prm.Sep {
+					w.GoHarness("closerA", true, func() { a.CloseNow() })
+					w.GoHarness("openerB", true, useB)
+					w.GoHarness("drainerB", false, func() {
+						for i := 0; i < 64; i++ {
+							if !pb.WaitOut("window-full", func(out []byte) bool { return len(out)-pb.Taken >= pb.Window }) {
+								return
+							}
+							pb.Drain(-1)
+						}
+					})
+				} else {
+					w.GoHarness("closerA-then-B", true, func() {
+						a.CloseNow()
+						useB()
+					})
+				}
 			})
 			return func(complete bool) {
 				if !complete {
@@ -472,9 +515,15 @@ func c07WSetup(prm c07WParams) func(c *fw.Ctx, name string) explore.Setup {
 						}
 					}
 				}
-				if len(res.Messages) != 2 || len(res.Messages[0].Payload) != 300 || len(res.Messages[1].Payload) != 300 {
-					violate(c, w, name, P+"/messages-differ/wconc/"+role, fmt.Sprintf("B wrote two messages of 300 bytes (both calls returned nil); its peer receives %d message(s): %s", len(res.Messages), describeFrames(connFrames(pb.Out))))
+				if len(res.Messages) != len(bErrs) {
+					violate(c, w, name, P+"/messages-differ/wconc/"+role, fmt.Sprintf("B wrote %d messages of 300 bytes (the calls returned nil); its peer receives %d message(s): %s", len(bErrs), len(res.Messages), describeFrames(connFrames(pb.Out))))
 					return
+				}
+				for _, m := range res.Messages {
+					if len(m.Payload) != 300 {
+						violate(c, w, name, P+"/messages-differ/wconc/"+role, fmt.Sprintf("B wrote messages of 300 bytes; its peer receives one of %d bytes: %s", len(m.Payload), describeFrames(connFrames(pb.Out))))
+						return
+					}
 				}
 				if prm.Prop == "C16" {
 					seenClose := false
@@ -505,6 +554,10 @@ func c07CrossScenarios(prop string) func(tier string) []scenario {
 				pw.P = 2
 			}
 			scs = append(scs, scenario{Name: prm.name(), Cfg: pw, Setup: c07WSetup(prm)})
+			if k.Client {
+				prm.Sep = true
+				scs = append(scs, scenario{Name: prm.name(), Cfg: pw, Setup: c07WSetup(prm)})
+			}
 		}
 		return scs
 	}
@@ -548,6 +601,10 @@ func c07Scenarios(tier string) []scenario {
 			pw.P = 2
 		}
 		scs = append(scs, scenario{Name: prm.name(), Cfg: pw, Setup: c07WSetup(prm)})
+		if k.Client {
+			prm.Sep = true
+			scs = append(scs, scenario{Name: prm.name(), Cfg: explore.Config{P: 1, Horizon: 60e9}, Setup: c07WSetup(prm)})
+		}
 	}
 	ks := []connCfg{{Client: false, Flate: true}, {Client: true, Flate: true}, {Client: false, Flate: true, CNCT: true, SNCT: true}, {Client: true, Flate: true, CNCT: true, SNCT: true}, {Client: true}}
 	for _, k := range ks {
